@@ -1,5 +1,6 @@
 import ChythonModel.Proofs.C04
 import ChythonModel.Proofs.C04Standardize
+import ChythonModel.Proofs.C04StdTotal
 import ChythonModel.Spec.OrganicValence
 import ChythonModel.Spec.Lewis
 /-!
@@ -975,6 +976,65 @@ theorem standardize_rule_keeps_counts_right (fx : RuleFix) (maps : List (List (N
     rw [e]
     exact hc p hp0
 
+/-- On every molecule whose atoms all carry the rules' counts — in particular after any sequence of standardize rules applied to
+    such a molecule — `check_valence` reports exactly (and in `_atoms` order) the atoms for which no valence state exists. -/
+theorem valence_check_exact_of_consistent (m : Mol) (hc : HConsistent m) :
+    checkValence m = (m.atoms.filter fun p => calcImplicitMol m p.1 == some none).map (·.1) := by
+  simp only [checkValence]
+  congr 1
+  apply List.filter_congr
+  intro p hp
+  have := hc p hp
+  cases hh : p.2.implH with
+  | none => rw [hh] at this; simp [← this]
+  | some v => rw [hh] at this; simp [← this]
+
+/-- **The loop body raises nothing on a well-formed molecule.** If every atom has a neighbour dict, every neighbour mentioned is an
+    atom, every element is known to the tables (`Shape`, what the Graph API maintains) and every yielded mapping sends the pattern
+    atoms the rule names to atoms of the molecule (`MapsInto`, what the matcher guarantees), then no look-up of the rewrite or of the
+    recount fails (`stdRule … ≠ none`, no `KeyError`), and the result is again well-formed with the same atom keys. -/
+theorem standardize_rule_total (fx : RuleFix) (maps : List (List (Nat × Nat))) (m : Mol)
+    (s : ChythonModel.Proofs.C04StdTotal.Shape m)
+    (hm : ∀ mp ∈ maps, ChythonModel.Proofs.C04StdTotal.MapsInto fx mp m.ids) :
+    ∃ m', stdRule fx maps m = some m' ∧ ChythonModel.Proofs.C04StdTotal.Shape m' ∧ m'.ids = m.ids := by
+  obtain ⟨st, h1, s1, hid1, hsub⟩ := ChythonModel.Proofs.C04StdTotal.applyMappings_total fx maps ⟨m, [], []⟩ s hm
+  have hin : ∀ x ∈ st.hs, x ∈ st.mol.ids := by
+    intro x hx
+    cases hsub x hx with
+    | inl e => simp at e
+    | inr e => exact hid1 ▸ e
+  simp only [stdRule, h1]
+  cases he : st.hs.isEmpty with
+  | true => exact ⟨st.mol, by simp, s1, hid1⟩
+  | false =>
+    simp only [Bool.false_eq_true, if_false]
+    have hall : st.hs.all (fun n => (calcImplicitMol st.mol n).isSome) = true := by
+      simp only [List.all_eq_true]
+      exact fun x hx => ChythonModel.Proofs.C04StdTotal.calc_isSome s1 x (hin x hx)
+    have hfix := fixLoop_eq st.mol st.hs st.mol (fun _ => rfl)
+    simp only [hall, if_true] at hfix
+    refine ⟨_, hfix, ?_, ?_⟩
+    · -- the recount changes marks only
+      have hids : (⟨st.mol.atoms.map (fixEntry st.mol st.hs), st.mol.adj⟩ : Mol).ids = st.mol.ids := by
+        simp only [Mol.ids, List.map_map]
+        apply List.map_congr_left
+        intro p _
+        simp only [Function.comp, fixEntry]
+        split <;> rfl
+      refine ⟨fun k hk => s1.rows k (hids ▸ hk), fun r hr kb hkb => hids ▸ s1.closed r hr kb hkb, ?_⟩
+      intro p hp
+      simp only [List.mem_map] at hp
+      obtain ⟨p0, hp0, e⟩ := hp
+      have hz : p.2.z = p0.2.z := by rw [← e]; simp only [fixEntry]; split <;> rfl
+      rw [hz]; exact s1.known p0 hp0
+    · have hids : (⟨st.mol.atoms.map (fixEntry st.mol st.hs), st.mol.adj⟩ : Mol).ids = st.mol.ids := by
+        simp only [Mol.ids, List.map_map]
+        apply List.map_congr_left
+        intro p _
+        simp only [Function.comp, fixEntry]
+        split <;> rfl
+      exact hids.trans hid1
+
 /-- the recount `for n in hs: self.calc_implicit(n)` runs over a Python *set*: its result (and whether it raises) depends on the
     members only, not on the iteration order or on repetitions -/
 theorem standardize_recount_order_irrelevant (m : Mol) (ns ns' : List Nat) (h : ∀ x, x ∈ ns ↔ x ∈ ns') :
@@ -1008,6 +1068,18 @@ example : HConsistent amineBorane := by decide +kernel
 example : (stdRule ⟨[], [(1, 2, 8)], []⟩ [[(1, 2), (2, 4)]] amineBorane).map
     (fun m => (m.atoms.map (·.2.implH), (m.nbrs 2).map (·.2.order), checkValence m)) =
     some ([some 3, some 1, some 3, some 0, some 3, some 3, some 3], [1, 1, 8], []) := by decide +kernel
+
+/-- the hypotheses of `standardize_rule_total` are satisfiable: the amine-borane is well-formed and the mapping of the B–N rule
+    sends the pattern atoms the rule names to its atoms 2 and 4 -/
+example : ChythonModel.Proofs.C04StdTotal.Shape amineBorane ∧
+    ChythonModel.Proofs.C04StdTotal.MapsInto ⟨[], [(1, 2, 8)], []⟩ [(1, 2), (2, 4)] amineBorane.ids :=
+  ⟨⟨by decide +kernel, by decide +kernel, by decide +kernel⟩,
+   ⟨fun e he => by simp at he,
+    fun e he => by
+      simp only [List.mem_singleton] at he
+      subst he
+      exact ⟨2, 4, rfl, rfl, by decide, by decide⟩,
+    fun a ha => by simp at ha⟩⟩
 
 /-- … and the recount of *both ends* is necessary: the rewrite alone (covalent → coordinate, `atom_fix` empty, no electron state
     changed) leaves a molecule whose B and N marks are not the rules' counts -/
